@@ -72,7 +72,7 @@ func Verif_c06_parse() {
 	})
 	verifAssert(ok, "parser entry point panicked")
 	steps := verifSteps() - s0
-	verifAssert(steps <= 60000+40000*(n+1), "parsing took more than the linear step bound")
+	verifAssert(steps <= 60000+40000*(len(src)+1), "parsing took more than the linear step bound")
 	// whatever came back can be printed, simplified and walked
 	if f, isFile := root.(*File); isFile {
 		o := verifPrinterOpts()
